@@ -3,6 +3,7 @@ C09 — property theorems about reading a saved text back through `loadManifest`
 -/
 import ArvVerif.Proofs.C09_Marker
 import ArvVerif.Proofs.C09_Wf
+import ArvVerif.Proofs.C09_Glue
 import ArvVerif.Props.C09
 namespace ArvVerif.C09
 
@@ -309,6 +310,27 @@ theorem C09_marshal_fsLoad (hh : HashOK hash) {k : Keep} {t : Tree9} (hok : Save
       apply mem_markerDirs_of L _ hn'
       rw [hcomps, hpath]
       exact mem_dirPrefixes.mpr ⟨hne, List.prefix_append _ _⟩
+
+/-- `C09_marshal_fsLoad` with the structural hypotheses decided by execution: the model driver evaluates
+`shapeOK` on the directory list of EVERY save it runs (`guardShape`; a failed check prints `glue`, which never
+agrees with the implementation), and `shapeOK` implies "closed" and "no file at a directory's path". -/
+theorem C09_marshal_fsLoad_checked (hh : HashOK hash) {k : Keep} {t : Tree9} (hok : SaveOK max hash k t) (hnd : NoDel t)
+    (hshape : shapeOK t = true)
+    {txt : Bytes} (h : (marshal9 hash max k t).2.2 = MRes.ok txt)
+    (hfit : ∀ L, parse9 txt = some L → ∀ s ∈ streamsOf L, C10.FitsFs s) :
+    ∃ tr, C10.fsLoad txt = some tr ∧
+      (∀ d ∈ (marshal9 hash max k t).2.1, ∀ f ∈ d.files, ∃ e ∈ tr.files, e.1 = d.path ++ [f.1] ∧
+        C10.segBytes (blkOf (marshal9 hash max k t).1.store) e.2 = C08.abs (marshal9 hash max k t).1.store f.2) ∧
+      (∀ e ∈ tr.files, ∃ d ∈ (marshal9 hash max k t).2.1, ∃ f ∈ d.files, e.1 = d.path ++ [f.1]) ∧
+      (∀ p ∈ tr.dirs, p ∈ dirPaths t) ∧
+      (∀ p ∈ dirPaths t, p ≠ [] → p ∈ tr.dirs) := by
+  obtain ⟨c1, c2, _⟩ := shapeOK_sound t hshape
+  exact C09_marshal_fsLoad hh hok hnd c1 c2 h hfit
+
+/-- the example tree below passes the check; a list whose directory `d/e` lacks its parent does not -/
+example : shapeOK [⟨[], [([97], FileNode.empty)], 1⟩, ⟨[[100]], [], 1⟩, ⟨[[100], [101]], [], 0⟩] = true := by decide +kernel
+example : shapeOK [⟨[], [([97], FileNode.empty)], 0⟩, ⟨[[100], [101]], [], 0⟩] = false := by decide +kernel
+example : shapeOK [⟨[], [([100], FileNode.empty)], 1⟩, ⟨[[100]], [], 0⟩] = false := by decide +kernel
 
 /-! ### non-vacuity of `C09_marshal_fsLoad` (and, through it, of `C09_loader_reads_markers`) -/
 
